@@ -77,6 +77,7 @@ fill(IMB_JOB *j, int kind, int slot, int session)
 }
 
 static int c14_mode;
+static const char *replay_path, *g_kinds = "";
 static void
 viol(const char *site, const char *detail, long a, long b)
 {
@@ -94,7 +95,8 @@ viol(const char *site, const char *detail, long a, long b)
         rec_s("variant", VARIANTS[g_v].name);
         rec_s("api", g_api);
         rec_i("ring", RING);
-        rec_s("path", bfs_path_str());
+        rec_s("path", replay_path ? replay_path : bfs_path_str());
+        rec_s("kinds", g_kinds);
         rec_end();
 }
 
@@ -658,6 +660,10 @@ main(int argc, char **argv)
         is_mixed = strstr(g_api, "+sync") != NULL; /* "job+sync" / "burst+sync": synchronous hash bursts join the alphabet */
         const char *vsel = argc > 2 ? argv[2] : "all";
         const char *kinds = argc > 3 ? argv[3] : "ISLPCX";
+        g_kinds = kinds;
+        for (int i = 1; i + 1 < argc; i++)
+                if (!strcmp(argv[i], "--path"))
+                        replay_path = argv[i + 1];
         int thorough = tier_thorough();
         fill_rand(key, 16, 11);
         fill_rand(iv, 16, 12);
@@ -684,6 +690,27 @@ main(int argc, char **argv)
                 mgr_init(m, v);
                 memset(&B, 0, sizeof B);
                 memset(&R, 0, sizeof R);
+                if (replay_path) {
+                        /* plain replay of one recorded path from the initial state, without the explorer: c05 <api> <v> <kinds> --path "<ops>" */
+                        char *copy = strdup(replay_path), *save = NULL;
+                        int nrun = 0;
+                        for (char *tok = strtok_r(copy, " ", &save); tok; tok = strtok_r(NULL, " ", &save)) {
+                                if (!strcmp(tok, "->"))
+                                        continue;
+                                int op = -1;
+                                for (int q = 0; q < total_ops(); q++)
+                                        if (!strcmp(opname(q), tok))
+                                                op = q;
+                                if (op < 0)
+                                        DIE("replay: unknown operation '%s' for api %s kinds %s", tok, g_api, kinds);
+                                apply(op);
+                                nrun++;
+                        }
+                        printf("replayed %d operations on %s (%s, ring %d)\n", nrun, VARIANTS[v].name, g_api, (int) RING);
+                        free(copy);
+                        free_mb_mgr(m);
+                        continue;
+                }
                 if (RING <= 16) {
                         const int small_alpha = !strchr(kinds, 'P') && !strchr(kinds, 'C');
                         bfs_model M = { .snap_size = sz_mgr + sz_h + sz_a + sizeof B + sizeof R,
